@@ -191,7 +191,7 @@ class Speller(object):
     """draws one permitted orthoXML spelling of a history (see DESIGN.md 2.3)"""
 
     def __init__(self, rng, tree, p_omit=0.5, p_wrap=0.15, p_label=0.5, p_annot=0.3, p_og_attr=0.1,
-                 p_loft=0.1, explicit=False):
+                 p_loft=0.1, explicit=False, p_pg_annot=0.0):
         self.rng = rng
         self.byp = tree.by_path()
         self.p_omit = 0 if explicit else p_omit
@@ -200,6 +200,8 @@ class Speller(object):
         self.p_annot = p_annot
         self.p_og_attr = p_og_attr
         self.p_loft = p_loft
+        self.p_pg_annot = p_pg_annot
+        self.fresh = 0
         self.gid = 0
         self.stats = {'omitted': 0, 'wrapped': 0, 'pg': 0, 'nested_pg': 0, 'labels': 0, 'annot': 0}
 
@@ -291,7 +293,16 @@ class Speller(object):
         return ('pg', ('dn%d' % self.rng.randint(0, 999)) if self.rng.random() < 0.2 else None, body)
 
     def pg_annots(self):
-        return []
+        # annotations written inside a paralogGroup attach to the enclosing orthologGroup: fresh keys only
+        out = []
+        if self.rng.random() < self.p_pg_annot:
+            self.fresh += 1
+            self.stats['annot'] += 1
+            if self.rng.random() < 0.5:
+                out.append(('score', 'pgs%d' % self.fresh, '%.3f' % self.rng.random()))
+            else:
+                out.append(('prop', 'pgk%d' % self.fresh, 'v%d' % self.rng.randint(0, 99)))
+        return out
 
     def explicit(self, h):
         lins = list(h[2])
